@@ -6,6 +6,9 @@
 #include <phosg/Filesystem.hh>
 #include <phosg/Image.hh>
 
+#include <fcntl.h>
+#include <unistd.h>
+
 #include "trace.hh"
 using namespace std;
 using namespace phosg;
@@ -59,8 +62,43 @@ static string inflate_png(const string& file) {
   out.resize(len);
   return out;
 }
+// loading BY NAME (both filename constructors): same outcome as through a stream, and no descriptor left open -
+// whether the file loads or is rejected
+static string g_tmp_path;
+static int count_fds() {
+  int n = 0;
+  for (int fd = 0; fd < 256; fd++)
+    if (fcntl(fd, F_GETFD) != -1) n++;
+  return n;
+}
+static string load_by_name(const string& file, Image* out, int* leaked, bool as_string) {
+  FILE* f = fopen(g_tmp_path.c_str(), "wb");
+  fwrite(file.data(), 1, file.size(), f);
+  fclose(f);
+  int before = count_fds();
+  string status = "ok";
+  try {
+    if (as_string) {
+      Image im(g_tmp_path);
+      *out = std::move(im);
+    } else {
+      Image im(g_tmp_path.c_str());
+      *out = std::move(im);
+    }
+  } catch (const exception& e) {
+    status = vt::exc_name(e);
+  }
+  *leaked = count_fds() - before;
+  for (int fd = 3; *leaked > 0 && fd < 256; fd++) {  // do not let a leak starve the rest of the run
+    char link[64], target[512];
+    snprintf(link, sizeof link, "/proc/self/fd/%d", fd);
+    ssize_t k = readlink(link, target, sizeof target - 1);
+    if (k > 0 && string(target, k) == g_tmp_path) close(fd);
+  }
+  return status;
+}
 static void prefixes_event(const string& file, const Image& full, vt::Rng& r, size_t exhaustive_limit) {
-  vector<long> cuts, outs, same;
+  vector<long> cuts, outs, same, leaks, agree;
   vector<size_t> ks;
   if (file.size() <= exhaustive_limit)
     for (size_t k = 0; k <= file.size(); k++) ks.push_back(k);
@@ -75,9 +113,20 @@ static void prefixes_event(const string& file, const Image& full, vt::Rng& r, si
     cuts.push_back((long)k);
     outs.push_back(st == "ok" ? 0 : 1);
     same.push_back(st == "ok" && same_image(im, full));
+    // every fourth cut (and the complete file) also by name
+    int leaked = 0;
+    bool ag = true;
+    if (k % 4 == 1 || k == file.size()) {
+      Image im2;
+      string st2 = load_by_name(file.substr(0, k), &im2, &leaked, k % 8 == 1);
+      ag = (st2 == "ok") == (st == "ok") && (st != "ok" || same_image(im, im2));
+    }
+    leaks.push_back(leaked);
+    agree.push_back(ag);
   }
   vt::J j;
   j.str("e", "prefixes").num("n", (long long)file.size()).ints("cuts", cuts).ints("outs", outs).ints("same", same);
+  j.ints("leaks", leaks).ints("agree", agree);
   tr.emit(j);
   tr.events += ks.size() - 1;
 }
@@ -215,6 +264,7 @@ int main(int argc, char** argv) {
   bool quick = string(argv[2]) == "quick";
   int shard = atoi(argv[4]), nshards = atoi(argv[5]);
   vt::Rng r(strtoull(argv[3], nullptr, 10) * 83 + shard);
+  g_tmp_path = string(argv[1]) + ".img.tmp";
   tr.emit("{\"e\":\"Reset\"}");
   tr.histories++;
   size_t maxdim = quick ? 5 : 8;
@@ -283,6 +333,7 @@ int main(int argc, char** argv) {
           tr.nontrivial("pnggrid" + out + to_string(alpha));
         }
   }
+  ::unlink(g_tmp_path.c_str());
   tr.stats();
   return 0;
 }
